@@ -382,7 +382,19 @@ func runC01(c *harness.Ctx) {
 		cUp = true
 		cs.start(c, conn, "C01")
 	})
-	stop := c.S.Run(func() bool { return cUp && sUp && cs.complete() && ss.complete() }, 10*time.Minute)
+	// "stalled" is ten virtual minutes in which no byte was written to the wire
+	// or delivered to an application - not ten minutes in all: a megabyte in
+	// paranoid IAT mode under a table of tiny lengths legitimately trickles for
+	// longer than that (4 bytes every 0-10 ms)
+	var stop sim.Stop
+	for round := 0; round < 60; round++ {
+		moved := cs.gotIn + ss.gotIn + link.AB.Written + link.BA.Written
+		stop = c.S.Run(func() bool { return cUp && sUp && cs.complete() && ss.complete() }, 10*time.Minute)
+		if stop != sim.StopTime || cs.gotIn+ss.gotIn+link.AB.Written+link.BA.Written == moved {
+			break
+		}
+		c.Feature("transfer-longer-than-10-virtual-minutes")
+	}
 	c.Reached = cUp && sUp
 	c.Nontrivial = c.S.Counters["net.split"]+c.S.Counters["net.coalesce"] > 0 && cs.expectIn+ss.expectIn > 0
 	switch stop {
